@@ -174,6 +174,15 @@ func verifValueString(v Value) string { return v.String() }
 // verifC18Run evaluates the chunks one Eval at a time on one VM (sharing the import-alias map, as the REPL does)
 // after pre-setting the inputs as globals main.in0, main.in1, ...; it returns the last Eval's values, the output,
 // the first error and the named globals.
+// verifC18Files: script packages a C18 sequence may import (state kept in initialiser-less package variables of
+// several types; report imports store, so importing report in a later chunk loads store a second time).  Variables
+// WITH an initialiser are never modified: a second load re-initialises them by design (C17), so a sequence that
+// changed one in between would legitimately differ between whole and incremental evaluation.
+var verifC18Files = map[string]string{
+	"store/store.go": "package store\n\nvar Last any\nvar Hits int\nvar Names []string\nvar Seen map[string]int\nvar Base = 7\n\nfunc Put(v int) {\n\tLast = v\n\tHits++\n\tNames = append(Names, \"n\")\n\tif Seen == nil {\n\t\tSeen = map[string]int{}\n\t}\n\tSeen[\"k\"] = v\n}\n\nfunc Get() int {\n\tr := Hits*100 + len(Names)*10 + Base\n\tif Last == nil {\n\t\tr += 5000\n\t}\n\tif Seen != nil {\n\t\tr += Seen[\"k\"]\n\t}\n\treturn r\n}\n",
+	"report/report.go": "package report\n\nimport \"store\"\n\nfunc Show() int {\n\treturn store.Get() + 100000\n}\n",
+}
+
 func verifC18Run(chunks []string, inputs []Value, globals []string) (o verifOutcome, gl []Value) {
 	rec := &verifRecorder{}
 	vm := New(WithStdout(rec))
@@ -182,7 +191,7 @@ func verifC18Run(chunks []string, inputs []Value, globals []string) (o verifOutc
 	}
 	imports := map[string]string{}
 	for _, c := range chunks {
-		rets, err := vm.Eval(verifMkFS(nil), "main.go", c, WithEvalImports(imports))
+		rets, err := vm.Eval(verifMkFS(verifC18Files), "main.go", c, WithEvalImports(imports))
 		if err != nil {
 			o.evalErr = err
 			break
